@@ -127,7 +127,9 @@ class BaseSDESolver(metaclass=better_abc.ABCMeta):
                         error_estimate = adaptive_stepping.compute_error(next_y_full, next_y, self.rtol, self.atol)
                         step_size, prev_error_ratio = adaptive_stepping.update_step_size(
                             error_estimate=error_estimate,
-                            prev_step_size=step_size,
+                            # (The step actually tried is clipped to ts[-1]; shrink from that, so that a rejected clipped
+                            # step is retried with a smaller step rather than repeated.)
+                            prev_step_size=min(step_size, ts[-1] - curr_t),
                             prev_error_ratio=prev_error_ratio
                         )
 
